@@ -36,7 +36,7 @@ def run(ctx):
                 lambda c, t: w_alg.drive_composite(c, t, pool=fpool),
                 lambda c, t: w_alg.drive_partial_retrieval(c, t, meta=pool),
                 lambda c, t: w_alg.drive_mask(c, 'quick', pool=pool)):
-        ctx.deadline = time.time() + sub
+        ctx.deadline = ctx.clock() + sub
         drv(ctx, ctx.tier)
     ctx.deadline = saved
     ctx.exhaustive.clear()
